@@ -477,7 +477,7 @@ def write_point_schedules(ctx, site, make, files, cap, nthreads=3, read_cap=None
         # the neighbourhood of an unmodelled site: the reads of what it writes are part of the same search
         urgent += reads
         reads = []
-    urgent = stratified(ctx.rng, urgent, min(12 * cap, 120))
+    urgent = stratified(ctx.rng, urgent, min(6 * cap, 80))
     first = stratified(ctx.rng, first, 4 * cap)
     scheds = stratified(ctx.rng, scheds, cap)
     reads = stratified(ctx.rng, reads, max(2, cap // 15) if read_cap is None else read_cap)
@@ -516,9 +516,12 @@ def run_site(ctx, site, make, files, n=None, length=60, cap=None, nthreads=3, re
     two = cap is None
     points = write_point_schedules(ctx, site, make, files, ctx.scale(60, 2000) if cap is None else cap, nthreads, read_cap)
     rand = list(gen_schedules(ctx, nthreads, n, length, two_switch=two))
+    before = len(ctx.disagreements)
     for schedule in (points + rand if (points_first or unmodelled_lines(files)) else rand + points):
         if run_one(ctx, site, make, files, schedule):
             return          # a hung run leaves stuck threads behind and has been reported: leave this site
+        if ctx.searching and len(ctx.disagreements) - before >= 4:
+            return          # (failing-input search: this site has delivered; the time goes to the other sites)
 
 
 def site_dask(variant):
